@@ -16,7 +16,10 @@ RULES = [
     ("R-pos", "self . nodes . iter ( ) . position ( $c )", "vx_position ( & self . nodes , $c )", "Iterator::position has no vstd spec; verified helper"),
     ("R-twc", "self . expires . iter ( ) . take_while ( $c ) . count ( )", "vx_take_while_count ( & self . expires , $c )", "take_while/count have no vstd spec; verified helper"),
     ("R-any", "items . iter ( ) . any ( $c )", "vx_any ( items , $c )", "Iterator::any postcondition unusable; verified helper"),
-    ("R-drain", "self . expires . drain ( 0 .. $n )", "vx_drain_prefix ( & mut self . expires , $n )", "Vec::drain(0..n) stand-in (trusted contract)"),
+    ("R-drain", "for $x in self . expires . drain ( 0 .. $n ) {", "let drained = vx_drain_prefix ( & mut self . expires , $n ) ; for $x in drained {", "Vec::drain(0..n) stand-in (trusted contract); exact because the loop body cannot touch the Vec while the Drain lives"),
+    ("R-entry", "match self . storage . entry ( $k ) { Entry :: Occupied ( mut occ ) => occ . get_mut ( ) . push ( $x ) , Entry :: Vacant ( vac ) => { vac . insert ( vec ! [ $y ] ) ; } } ;", "vx_entry_push ( & mut self . storage , $k , $x ) ;", "entry()/Occupied/Vacant push idiom -> verified helper (via get_mut/insert)"),
+    ("R-eager", "self . storage . get ( info_hash ) . into_iter ( ) . flatten ( ) . map ( $c )", "vx_opt_vec_map ( self . storage . get ( info_hash ) , $c )", "lazy Option<&Vec>.into_iter().flatten().map(f) -> eager Vec with the same element sequence (Flatten unsupported)"),
+    ("R-eager", "-> impl Iterator < Item = SocketAddr > + 'a", "-> Vec < SocketAddr >", "return type of the eager stand-in"),
     ("R-inline", "split_bucket . iter ( )", "split_bucket . nodes . iter ( )", "one-expression accessor Bucket::iter inlined"),
     ("R-inline", "bucket . iter ( )", "bucket . nodes . iter ( )", "one-expression accessor Bucket::iter inlined"),
 ]
